@@ -1,9 +1,49 @@
-import Driver.Loop
+import Driver.GeoWire
+import Midgard.Model.Kepler
 
-/-! Driver for C07: placeholder until the model is written. -/
+/-! Driver for C07: `trs2kepler`, `kepler2trs`, mean and true anomaly at `Float`;
+the algebraic core `kepler2trsCore` also at `Rat`. -/
 namespace Driver.C07
+open Midgard.Proto Midgard.Geo Driver.GeoWire
+
+def showKep (k : Kep Float) : String :=
+  s!"{Wire.render k.a} {Wire.render k.e} {Wire.render k.i} {Wire.render k.Omega} {Wire.render k.omega} {Wire.render k.E}"
+
+section Alg
+variable {α : Type} [Wire α] [Add α] [Sub α] [Mul α] [Div α] [Neg α] [Zero α] [One α]
+
+def handleAlg : List String → Option String
+  | "k2tcore" :: rest => do
+    match ← parseAll? (α := α) rest with
+    | [a, e, fac, g, cO, sO, ci, si, cw, sw, cE, sE] =>
+      pure (showV6 (kepler2trsCore a e fac g cO sO ci si cw sw cE sE))
+    | _ => none
+  | _ => none
+
+end Alg
+
+def handleF : List String → Option String
+  | "kepler2trs" :: rest => do
+    match ← parseAll? (α := Float) rest with
+    | [gm, a, e, i, bigO, w, bigE] => pure (showV6 (kepler2trs gm ⟨a, e, i, bigO, w, bigE⟩))
+    | _ => none
+  | "trs2kepler" :: rest => do
+    match ← parseAll? (α := Float) rest with
+    | [gm, x, y, z, vx, vy, vz] => pure (showKep (trs2kepler gm ⟨⟨x, y, z⟩, ⟨vx, vy, vz⟩⟩))
+    | _ => none
+  | "M" :: rest => do
+    match ← parseAll? (α := Float) rest with
+    | [e, bigE] => pure (Wire.render (meanAnomaly e bigE))
+    | _ => none
+  | "f" :: rest => do
+    match ← parseAll? (α := Float) rest with
+    | [e, bigE] => pure (Wire.render (trueAnomaly e bigE))
+    | _ => none
+  | _ => none
 
 def handle : List String → Option String
+  | "c07" :: "q" :: rest => handleAlg (α := Rat) rest
+  | "c07" :: "f" :: rest => (handleAlg (α := Float) rest).orElse (fun _ => handleF rest)
   | _ => none
 
 end Driver.C07
